@@ -897,7 +897,8 @@ def run(ck):
     with ThreadPoolExecutor(5) as ex:
         # -- 1. model checking -------------------------------------------------------------------
         mc = {
-            "intended fs 2 configs": ex.submit(bcc_tlc, "int_fs", keycfg=True, coverage=quick),
+            "intended fs 2 configs": ex.submit(bcc_tlc, "int_fs", keycfg=True, coverage=quick,
+                                               stages=("tempPartial", "replaced") if quick else ALL_STAGES),
             "intended fs 2 names": ex.submit(bcc_tlc, "int_fs2", keycfg=True, names=("t", "u"),
                                              trunc=(3,) if quick else (3, 5), foreign=False,
                                              stages=("tempPartial",) if quick else ("tempPartial", "replaced"),
